@@ -116,6 +116,22 @@ def sp_lines(ctx, label):
         m, n = 2 + rng.below(6), 2 + rng.below(6)
         M = rand_matrix(rng, m, n, (-1, 0, 1) if tern else (0, 1), 2 + rng.below(5), 10)
         add(tern, M, m, n)
+    # every value of maxNumReductions from 0 to m + n (so also exactly the number of reductions the matrix admits, and
+    # one less / one more): SIZE_MAX must be reported exactly when the bound is exceeded
+    for _ in range(250 if q else 4000):
+        tern = rng.below(2)
+        if rng.below(2):
+            m, n = 2 + rng.below(5), 2 + rng.below(5)
+            M = rand_matrix(rng, m, n, (-1, 0, 1) if tern else (0, 1), 2 + rng.below(5), 10)
+        else:
+            k = 3 + rng.below(2)
+            core = [[1 if (j == i or j == (i - 1) % k) else 0 for j in range(k)] for i in range(k)] if rng.below(2) else [[1]]
+            M = gen.add_sp_lines(rng, core, 2 + rng.below(7), bool(tern))
+            if rng.below(2):
+                M = gen.permute(rng, M)
+        ml = mat_line(M)
+        for mr in range(0, len(M) + len(M[0]) + 2):
+            lines.append("%d 1 %d 1 %d 0 0 0 %d %s" % (tern, mr, rng.below(2), rng.choice(pres), ml))
     return lines
 
 
